@@ -344,8 +344,18 @@ func NewValidatorsRequest(method *abi.Method, args []interface{}) (*stakingtypes
 
 	return &stakingtypes.QueryValidatorsRequest{
 		Status:     input.Status,
-		Pagination: &input.PageRequest,
+		Pagination: pageRequestWithoutEmptyKey(&input.PageRequest),
 	}, nil
+}
+
+// pageRequestWithoutEmptyKey drops a page key of length zero: the ABI decodes an absent key as an
+// empty, non-nil byte slice, which the SDK's pagination takes for a key given next to the offset
+// ("either offset or key is expected, got both"), so that no offset could ever be used.
+func pageRequestWithoutEmptyKey(pageReq *query.PageRequest) *query.PageRequest {
+	if pageReq != nil && len(pageReq.Key) == 0 {
+		pageReq.Key = nil
+	}
+	return pageReq
 }
 
 // NewRedelegationRequest create a new QueryRedelegationRequest instance and does sanity checks
@@ -423,7 +433,7 @@ func NewRedelegationsRequest(method *abi.Method, args []interface{}) (*stakingty
 		DelegatorAddr:    delegatorAddr, // bech32 formatted
 		SrcValidatorAddr: input.SrcValidatorAddress,
 		DstValidatorAddr: input.DstValidatorAddress,
-		Pagination:       &input.PageRequest,
+		Pagination:       pageRequestWithoutEmptyKey(&input.PageRequest),
 	}, nil
 }
 
